@@ -32,6 +32,42 @@ class Unknown(Exception):
     pass
 
 
+class Vec(tuple):
+    """A small value vector with the element-wise semantics of a numpy
+    array / pandas Series, for evaluating guards over label vectors."""
+
+    def _zip(self, o, f):
+        ov = o if isinstance(o, Vec) else Vec((o,) * len(self))
+        return Vec(f(a, b) for a, b in zip(self, ov))
+
+    def __lt__(self, o): return self._zip(o, lambda a, b: a < b)
+    def __le__(self, o): return self._zip(o, lambda a, b: a <= b)
+    def __gt__(self, o): return self._zip(o, lambda a, b: a > b)
+    def __ge__(self, o): return self._zip(o, lambda a, b: a >= b)
+    def __eq__(self, o): return self._zip(o, lambda a, b: a == b)
+    def __ne__(self, o): return self._zip(o, lambda a, b: a != b)
+    def __or__(self, o): return self._zip(o, lambda a, b: bool(a) or bool(b))
+    def __and__(self, o):
+        return self._zip(o, lambda a, b: bool(a) and bool(b))
+    def __invert__(self): return Vec(not a for a in self)
+    def __neg__(self): return Vec(-a for a in self)
+    def __abs__(self): return Vec(abs(a) for a in self)
+    def __hash__(self): return hash(tuple(self))
+    def __bool__(self):
+        if len(self) == 1:
+            return bool(self[0])
+        raise Unknown("truth value of a vector")
+
+    def min(self): return min(tuple(self))
+    def max(self): return max(tuple(self))
+    def any(self): return any(bool(a) for a in self)
+    def all(self): return all(bool(a) for a in self)
+    def abs(self): return abs(self)
+    def sum(self): return sum(tuple(self))
+    def isin(self, xs): return Vec(a in tuple(xs) for a in self)
+    def astype(self, ty): return Vec(ty(a) for a in self)
+
+
 def ev(t, atoms, env=None):
     """Value of a term.  ``atoms(term)`` supplies values for leaves (raise
     KeyError to decline); ``env`` maps ('elem', iter term) loop variables of
@@ -101,7 +137,12 @@ def ev(t, atoms, env=None):
     if k == "call":
         args = [ev(a, atoms, env) for a in t[2]]
         kw = {n: ev(v, atoms, env) for n, v in t[3]}
-        fn = {"builtins.len": len, "builtins.min": min, "builtins.max": max,
+        fn = {"builtins.any": lambda x: any(bool(a) for a in x),
+              "builtins.all": lambda x: all(bool(a) for a in x),
+              "numpy.any": lambda x: any(bool(a) for a in x),
+              "numpy.all": lambda x: all(bool(a) for a in x),
+              "numpy.abs": abs, "builtins.sum": sum, "builtins.set": set,
+              "builtins.len": len, "builtins.min": min, "builtins.max": max,
               "builtins.range": range, "builtins.list": list,
               "builtins.tuple": tuple, "builtins.int": int,
               "builtins.abs": abs, "builtins.divmod": divmod,
@@ -137,6 +178,29 @@ def ev(t, atoms, env=None):
         return prev
     if k == "mcall" and t[2] == "join" and len(t[3]) == 1:
         return ev(t[1], atoms, env).join(ev(t[3][0], atoms, env))
+    if k == "mcall" and t[2] in ("min", "max", "any", "all", "abs", "sum",
+                                 "isin", "astype"):
+        base = ev(t[1], atoms, env)
+        if isinstance(base, Vec):
+            args = [ev(a, atoms, env) for a in t[3]]
+            try:
+                return getattr(base, t[2])(*args)
+            except Exception as e:  # noqa: BLE001
+                raise Unknown(f".{t[2]} fails: {e}")
+    if k == "un" and t[1] == "~":
+        v = ev(t[2], atoms, env)
+        if isinstance(v, Vec):
+            return ~v
+    if k == "bin" and t[1] in ("|", "&"):
+        a, b = ev(t[2], atoms, env), ev(t[3], atoms, env)
+        if isinstance(a, Vec) or isinstance(b, Vec):
+            return (a | b) if t[1] == "|" else (a & b)
+        return (a | b) if t[1] == "|" else (a & b)
+    if k in ("name", "free") and t[1] in ("builtins.int", "int",
+                                          "builtins.bool", "bool",
+                                          "builtins.float", "float"):
+        return {"int": int, "bool": bool, "float": float}[
+            t[1].split(".")[-1]]
     raise Unknown(_tkey(t)[:120])
 
 
